@@ -301,6 +301,45 @@ let run inp obs : string option * string option =
        if L.exists (fun r -> key r <> key (L.hd rs)) rs
        then (Some (Printf.sprintf "the outcome depends on the registration order: %s" results), None)
        else (None, first_some snd))
+  | ["RD"; rs; drops; verb; path; cls], [reg; oks; res] ->
+    (* C11: path.delRule on the registered trie; judged as "removal = never having registered" *)
+    let ms = dec_ruleset rs and path = string_of_hexfield path in
+    let dropped = if drops = "-" then [] else L.map int_of_string (String.split_on_char '.' drops) in
+    let names = L.map (fun i -> full (L.nth ms i)) dropped in
+    if reg = "panic" then (Some "registration panicked", None)
+    else if oks = "panic" then (Some "delRule panicked", None)
+    else
+    let want_reg = spec_reg cls ms in
+    if reg <> want_reg then (Some (Printf.sprintf "registration %s, the template specification says %s" reg want_reg), None)
+    else if reg <> "acc" then (None, None)
+    else begin
+      let ms' = L.filter (fun m -> not (L.mem (full m) names)) ms in
+      let (st, meth, _) = split3 res in
+      let spec =
+        if st = "panic" then Some "the mux panicked on a request after delRule"
+        else if L.mem meth names then Some (Printf.sprintf "the request was routed to %s, whose rules were removed (a stale route)" meth)
+        else match spec_route cls ms' verb path (split3 res) with
+          | Some e -> Some ("after removing [" ^ String.concat " " names ^ "] (judged against the rule set without them): " ^ e)
+          | None ->
+            (* every method has at least its implicit binding: delRule reports true the first time, false after *)
+            let rec want seen = function [] -> [] | n :: r -> (if L.mem n seen then "0" else "1") :: want (n :: seen) r in
+            let w = if names = [] then "-" else String.concat "," (want [] names) in
+            if w <> oks then Some (Printf.sprintf "delRule reported [%s] for [%s]; every method had rules exactly until it was removed: [%s]" oks (String.concat " " names) w)
+            else None in
+      let (root, mreg) = model_build cls ms in
+      let model =
+        if mreg <> "acc" then Some (Printf.sprintf "model: registration %s, implementation acc" mreg)
+        else begin
+          let (root', moks) = L.fold_left (fun (nd, acc) n ->
+              let (nd', ok) = TrieDel.del_rule (str_of_string n) nd in (nd', acc @ [if ok then "1" else "0"])) (root, []) names in
+          let moks = if moks = [] then "-" else String.concat "," moks in
+          let mres = model_route cls root' verb path in
+          if moks <> oks then Some (Printf.sprintf "model of delRule reports [%s], implementation [%s]" moks oks)
+          else if mres <> res then Some (Printf.sprintf "after removal the model routes to %s, implementation answered %s" mres res)
+          else None
+        end in
+      (spec, model)
+    end
   | ["RG"; base; rs; cls], [reg; probe] ->
     let base_ms = [ { svc = "B0"; name = "Get"; bindings = [ { verb = "GET"; tmpl = "/base/{s1}"; body = ""; resp = ""; nested = false } ]; config = [] };
                     { svc = "B0"; name = "Put"; bindings = [ { verb = "PUT"; tmpl = "/base/{s1}/sub/{s2=aa/*}:act"; body = "*"; resp = ""; nested = false } ]; config = [] } ] in
@@ -315,4 +354,4 @@ let run inp obs : string option * string option =
     else (None, None)
   | _ -> (Some "unparsable routing case", None)
 
-let () = Evalreg.register "RT" run; Evalreg.register "RG" run
+let () = Evalreg.register "RT" run; Evalreg.register "RG" run; Evalreg.register "RD" run
